@@ -42,6 +42,13 @@ TEMPLATES = [
     ["def arg_T(a, b) { a + b }", "arg_T(cb(\"arg1\"), arg_T(1, cb(\"arg2\")))"],
     ["var lam_T = fun(a) { fun(b) { cb(\"inner_lam\") + b }(a) }", "lam_T(1)"],
     ["for (e_T : [1, 2]) { if (e_T == 2) { cb(\"rfor\") } else { continue } }"],
+    # declarations in expression positions (conditions, ternary arms, call arguments) as the only declaration of a block / loop body
+    ["{ if (var cd_T = cb(\"ifdecl\") > 0) { cb(\"ifbody\") } }"],
+    ["{ sink_push(var td_T = cb(\"argdecl\")) }"],
+    ["var wi_T = 0", "while (wi_T < 2) { ++wi_T; if (var wd_T = cb(\"wdecl\") > 0) { sink_push(wi_T) } }"],
+    ["for (var fi_T = 0; var fd_T = fi_T < 2 && cb(\"forcond\") > 0; ++fi_T) { sink_push(fi_T) }"],
+    ["if (true) { if (auto nd_T = cb(\"nested_if_decl\") > 0) { sink_push(1) } else { sink_push(2) } }"],
+    ["{ rec(\"${var ad_T = cb(\"interp_decl\")}\") }", "try { { sink_push(var ae_T = 3); cb(\"after_decl\") } } catch(e) { }"],
 ]
 
 
@@ -207,7 +214,7 @@ def build(c):
             decl.append(names)
             j += 1
     text = head + "\n".join(lines) + "\nmark(\"%d\")\n0\n" % j
-    inner = inner_names(prog) | {"deep_t2", "in_t3", "tr_t4", "ct_t4", "fn_t4", "f2_t5", "c2_t5", "r_t6", "sw_t8", "wb_t9", "keep_t11", "x", "a", "b", "e", "n"}
+    inner = inner_names(prog) | {"deep_t2", "in_t3", "tr_t4", "ct_t4", "fn_t4", "f2_t5", "c2_t5", "r_t6", "sw_t8", "wb_t9", "keep_t11", "cd_t15", "td_t16", "wd_t17", "fi_t18", "fd_t18", "nd_t19", "ad_t20", "ae_t20", "x", "a", "b", "e", "n"}
     top_all = set(n for names in decl for n in names)
     return text, decl, inner - top_all
 
